@@ -46,6 +46,7 @@ type Contract struct {
 	Key        string
 	Extern     bool
 	Pure       bool
+	Functional bool // pure and a function of its (first-class) arguments only: modelled as an uninterpreted function plus its postconditions
 	Inline     bool
 	Trusted    bool // contract is assumed, body not verified (listed in evidence)
 	Requires   []*Clause
@@ -88,7 +89,7 @@ type Lemma struct {
 	Line    int
 }
 
-var kwRe = regexp.MustCompile(`^(func|extern|lemma|emits|specfunc|requires|ensures|invariant|modifies|ghost|define|pure|inline|trusted|assume|prove)\b`)
+var kwRe = regexp.MustCompile(`^(func|extern|lemma|emits|specfunc|requires|ensures|invariant|modifies|ghost|define|pure|functional|inline|trusted|assume|prove)\b`)
 var propRe = regexp.MustCompile(`^\[([A-Z0-9, ]+)\]\s*`)
 var invRe = regexp.MustCompile(`^invariant\[(\d+)\]\s*`)
 
@@ -99,6 +100,7 @@ func newContractSet() *ContractSet {
 type rawClause struct {
 	kw, text string
 	line     int
+	afterGap bool // first //@ line after a line that is not a //@ line
 }
 
 // ParseFile reads //@ lines of one file.
@@ -112,10 +114,12 @@ func (cs *ContractSet) ParseFile(path string) error {
 	sc.Buffer(make([]byte, 1<<20), 1<<24)
 	var raws []rawClause
 	ln := 0
+	gap := true
 	for sc.Scan() {
 		ln++
 		line := strings.TrimSpace(sc.Text())
 		if !strings.HasPrefix(line, "//@") {
+			gap = true
 			continue
 		}
 		body := strings.TrimSpace(strings.TrimPrefix(line, "//@"))
@@ -126,7 +130,8 @@ func (cs *ContractSet) ParseFile(path string) error {
 			body = strings.TrimSpace(body[:i])
 		}
 		if m := kwRe.FindString(body); m != "" {
-			raws = append(raws, rawClause{m, strings.TrimSpace(body[len(m):]), ln})
+			raws = append(raws, rawClause{m, strings.TrimSpace(body[len(m):]), ln, gap})
+			gap = false
 		} else if len(raws) > 0 {
 			raws[len(raws)-1].text += " " + body
 		} else {
@@ -202,6 +207,11 @@ func (cs *ContractSet) ParseFile(path string) error {
 			if err != nil {
 				return fmt.Errorf("%s: %v", loc, err)
 			}
+			// a define that opens a block of //@ lines is file-level (and so are the defines that follow
+			// it in that block); inside a contract it is local
+			if r.afterGap {
+				cur, lem = nil, nil
+			}
 			if cur != nil {
 				cur.Defines[d.Name] = d
 			} else {
@@ -224,13 +234,16 @@ func (cs *ContractSet) ParseFile(path string) error {
 			} else {
 				return fmt.Errorf("%s: ghost outside contract", loc)
 			}
-		case "pure", "inline", "trusted":
+		case "pure", "inline", "trusted", "functional":
 			if cur == nil {
 				return fmt.Errorf("%s: %s outside contract", loc, r.kw)
 			}
 			switch r.kw {
 			case "pure":
 				cur.Pure = true
+			case "functional":
+				cur.Pure = true
+				cur.Functional = true
 			case "inline":
 				cur.Inline = true
 			case "trusted":
